@@ -70,14 +70,17 @@ Proof. exact apply_patch_conform. Qed.
 Print Assumptions C16_conform_op.
 
 (** The same through the entry point, for a patch array holding one operation.
+    (SUPERSEDED: the full statement for arbitrary arrays is proved further down as [C16_conform], through the
+    exact relation [doc_same] of PatchExact.v; this theorem is now a corollary and the remark below records
+    why the first version stopped here.)
     The full statement of DESIGN C16_conform — arbitrary arrays [p1; ...; pn] against [eval doc [o1; ...; on]] —
-    is NOT proved: by C16_first_failure it is the n-fold composition of C16_conform_op along the
+    was not proved in the first version: by C16_first_failure it is the n-fold composition of C16_conform_op along the
     model's own intermediate documents, which are [doc_eq] (not identical: member order) to the RFC's
     intermediate documents.  Closing it needs (i) a TRANSITIVE equivalence of documents to carry along the
     sequence — [doc_eq] itself is not transitive, because the library's number equality compare_double is a
     tolerance —, i.e. the per-operation theorems re-proved for "equal up to member order, numbers identical";
     (ii) that [eval1] respects that equivalence in its document argument; (iii) [dwf] and the size / depth
-    bounds for every intermediate document.  None of the three is proved here.
+    bounds for every intermediate document.  None of the three was proved in the first version (all three are now: PatchExact.v, PatchSeq2*.v, PatchSeqAll.v).
       Theorem C16_conform : forall doc patches ops, dwf doc -> ... -> ops_of patches = Some ops ->
         exists st doc' patches', cJSONUtils_ApplyPatchesCaseSensitive doc patches = Ok (st, doc', patches') /\
           match eval doc ops with Some d' => st = 0 /\ doc_eq doc' d' | None => st <> 0 end. *)
